@@ -1,3 +1,32 @@
-// harness child module of src/mqtt/packet/topic_alias_recv.rs
+// Child module of src/mqtt/packet/topic_alias_recv.rs
+// C13 kernel: receive-side table = plain alias -> topic map restricted to 1..=max.
 #[allow(unused_imports)]
 use super::*;
+
+#[kani::proof]
+#[kani::unwind(6)]
+fn c13_alias_recv_hist2() {
+    let max: u16 = kani::any();
+    kani::assume(max >= 1);
+    let mut r = TopicAliasRecv::new(max);
+    let a1: u16 = kani::any();
+    let a2: u16 = kani::any();
+    kani::assume(a1 >= 1 && a1 <= max && a2 >= 1 && a2 <= max);
+    let t1: bool = kani::any();
+    let t2: bool = kani::any();
+    r.insert_or_update(if t1 { "a" } else { "b" }, a1);
+    r.insert_or_update(if t2 { "a" } else { "b" }, a2);
+    let q: u16 = kani::any();
+    let got = r.get(q);
+    if q == a2 {
+        assert!(got == Some(if t2 { "a" } else { "b" }), "[C13] an alias resolves to the topic of the latest binding");
+    } else if q == a1 {
+        assert!(got == Some(if t1 { "a" } else { "b" }), "[C13] an earlier binding of another alias is kept");
+    } else {
+        assert!(got.is_none(), "[C13] unbound, zero or out-of-range aliases resolve to nothing");
+    }
+    kani::cover!(a1 == a2 && t1 != t2, "rebinding");
+    r.clear();
+    assert!(r.get(q).is_none(), "[C13] clear() drops every binding");
+    core::mem::forget(r);
+}
